@@ -120,8 +120,15 @@ Definition ok_named (ops : list op) (rs : list result) : bool :=
 Definition added_asg (a : asg) : bool :=
   match a_prev a with Some _ => negb (sched_asg a) | None => false end
   || role_eqb (a_role a) RAdded.
-Definition ok_only_added (ops : list op) (rs : list result) : bool :=
-  negb (ctl_ok ops rs) || forallb added_asg (asgs_of (events_of rs)).
+(* RoundRobin keeps no role check of its own: after a REJECTED add/remove
+   command (which the task manager never sends) its pid list may name a removed
+   pilot, so the clause is only claimed for histories of accepted commands.
+   Backfilling checks the role at every assignment: claimed unconditionally. *)
+Definition ok_only_added (c : cfg) (ops : list op) (rs : list result) : bool :=
+  match c_kind c with
+  | RR => negb (ctl_ok ops rs) || forallb added_asg (asgs_of (events_of rs))
+  | BF => forallb added_asg (asgs_of (events_of rs))
+  end.
 
 (* tasks wait: nothing is failed or dropped, nothing is scheduled while no
    pilot is usable, and at the end every submitted task is either handed on
@@ -217,7 +224,7 @@ Definition c12_row (c : cfg) (ops : list op) (obs : list result) (sb : list (Z *
   [ eqb_list result_eqb (run c st0 ops) obs;
     ok_bound_once ops obs;
     ok_named ops obs;
-    ok_only_added ops obs;
+    ok_only_added c ops obs;
     ok_waits ops obs;
     ok_sandbox sb;
     ok_rr_balance c ops obs;
